@@ -14,7 +14,7 @@ ASSUMPTIONS = ["the differential comparisons are tests (they exhibit failing inp
                "running code by the observed process state"]
 
 HERE = os.path.dirname(os.path.dirname(os.path.abspath(__file__)))
-KINDS = ["stock", "future", "mixed", "t0", "noreinvest", "fail", "analyser", "initpos", "rebalance", "splithold", "roundprice"]
+KINDS = ["stock", "future", "mixed", "t0", "noreinvest", "fail", "failbt", "analyser", "initpos", "rebalance", "splithold", "roundprice"]
 
 
 def run_job(specs, switches, hashseed):
@@ -46,6 +46,9 @@ def run(ctx):
             hist = [{"seed": rnd.randrange(1, 10 ** 6), "kind": "splithold"}, {"seed": rnd.randrange(1, 10 ** 6), "kind": "roundprice"}]
         if t == 0:
             hist = [{"seed": rnd.randrange(1, 10 ** 6), "kind": "t0"}, {"seed": rnd.randrange(1, 10 ** 6), "kind": "future"}]      # directed: T+0 then futures-only before a default stock run
+        if t in (1, 2):
+            # directed: an earlier run of the process died inside a phase (before the open / inside handle_bar) — whatever it left behind must not reach this run
+            hist = [{"seed": rnd.randrange(1, 10 ** 6), "kind": "failbt" if t == 1 else "fail"}]
         h1, h2 = rnd.randrange(1, 1000), rnd.randrange(1000, 2000)
         jobs.append(("fresh1", t, [x], h1))
         jobs.append(("fresh2", t, [x], h2))
